@@ -76,6 +76,7 @@ type keyTrack struct {
 	dupSeen bool
 	mgr     *LockManager
 	wakeDue bool // a hold ended or lost depth since the head waiter was last found inadmissible
+	wakeByDeparture bool // ... or (only) the former head of the queue left without a grant
 }
 
 func (m *Monitor) String() string { return "monitor" }
@@ -811,10 +812,30 @@ func (ms *monitorState) bookHolds(kt *keyTrack, after *MKey, ptrs []*Lock, now t
 	kt.holds = newHolds
 	// C04: a hold that ends or loses depth obliges the server to serve the queue
 	if after.locked() < kt.mk.locked() {
-		kt.wakeDue = true
+		kt.wakeDue, kt.wakeByDeparture = true, false
+	}
+	// ... and so does a queued request that leaves the head of the queue without being granted (it
+	// timed out or was cancelled): the one behind it is the head now and may be admissible where the
+	// departed one was not ("at every quiescent moment no key has a live queued request at the head
+	// of its queue that could be admitted")
+	if len(kt.mk.Waiters) > 0 && len(after.Waiters) > 0 && after.locked() == kt.mk.locked() && after.Waiters[0].Req != kt.mk.Waiters[0].Req {
+		gone := true
+		for _, wt := range after.Waiters {
+			if wt.Req == kt.mk.Waiters[0].Req {
+				gone = false
+			}
+		}
+		for _, h := range after.Holders {
+			if h.Req == kt.mk.Waiters[0].Req {
+				gone = false
+			}
+		}
+		if gone {
+			kt.wakeDue, kt.wakeByDeparture = true, true
+		}
 	}
 	if len(after.Waiters) == 0 || !after.admissible(after.Waiters[0].Count) {
-		kt.wakeDue = false
+		kt.wakeDue, kt.wakeByDeparture = false, false
 	}
 }
 
@@ -1193,7 +1214,11 @@ func (ms *monitorState) onIdle() {
 		if kt.wakeDue && len(kt.mk.Waiters) > 0 && kt.mk.admissible(kt.mk.Waiters[0].Count) {
 			sig := kt.mk.sig()
 			if kt.susp == sig && now.Sub(kt.suspAt) >= 2*time.Millisecond {
-				ms.violate("C04", "lost_wakeup", "key %d db %d at rest since %v: head queued request %x is admissible but not granted: %s", keyIndex(id.key), id.db, now.Sub(kt.suspAt), kt.mk.Waiters[0].Req[1:7], sig)
+				class := "lost_wakeup"
+				if kt.wakeByDeparture {
+					class = "lost_wakeup_after_head_waiter_left"
+				}
+				ms.violate("C04", class, "key %d db %d at rest since %v: head queued request %x is admissible but not granted: %s", keyIndex(id.key), id.db, now.Sub(kt.suspAt), kt.mk.Waiters[0].Req[1:7], sig)
 				kt.suspAt = now.Add(24 * time.Hour)
 			} else if kt.susp != sig {
 				kt.susp, kt.suspAt = sig, now
